@@ -95,7 +95,7 @@ def transformed(spec, t, used):
                 # columns that carry the names of the functions, modules, keywords and levels a formula mentions, with
                 # missing values: none of them is a variable of the formula
                 for j, name in enumerate(["center", "scale", "standardize", "C", "T", "S", "I", "np", "poly", "bs", "ustat", "prop", "p",
-                                          "df", "degree", "raw", "levels", "g1", "a", "lo"]):
+                                          "df", "degree", "raw", "levels", "g1", "a", "lo", ""]):  # ... and the empty name
                     if name not in [c["name"] for c in s["cols"]]:
                         s["cols"].append({"name": name, "kind": "float", "values": [None if (i + j) % 3 == 0 else float(i) for i in range(n)]})
             elif w == "obj":
